@@ -3,17 +3,18 @@ From Coq Require Import String List NArith ZArith Bool.
 Require Import Fsm.EngineDefs Fsm.Types Fsm.Actions Fsm.Provider Node.Types Node.Process Node.Facts.
 Import ListNotations.
 
-(* partial statement: a refused board message leaves the node's state store untouched (no write
-   to rounds, operations, tombstones or signatures), provided the round was not found in a
-   cancelled signing state — there the lazy restart is persisted before the message is judged
-   (open finding `lazy-restart-on-rejected-message`) *)
-Theorem C18_refused_message_writes_nothing_partial :
+(* a refused board message leaves the node's state store untouched (no write to rounds, operations,
+   tombstones or signatures) - for every store, every message and every state the round is found in.
+   On the pinned tree the statement needed the exclusion "the round is not in a cancelled signing
+   state": there the lazy restart was persisted before the message was judged (defect repaired, see
+   known_findings `C18-lazy-restart-on-rejected-message`); the restart is now persisted only with the
+   accepted message's own save. *)
+Theorem C18_refused_message_writes_nothing :
   forall now st m h,
-  (forall d, tget' (ns_rounds st) (m_round m) = Some d -> needs_lazy_restart (d_state d) = false) ->
   process_message now {| h_st := st; h_tr := [] |} m = RErr h ->
   no_state_writes (h_tr h).
 Proof. exact refused_message_writes_nothing. Qed.
-Print Assumptions C18_refused_message_writes_nothing_partial.
+Print Assumptions C18_refused_message_writes_nothing.
 
 (* ---- the airgapped machine (operation files) ---- *)
 Require Import Air.Reject Air.RejectProofs.
